@@ -3,6 +3,7 @@
 Disk model = the one the property states: program-ordered prefix of the block
 writes, appends torn at byte granularity, in-place rewrites atomic, both
 files cut at the same program point (there is one global log)."""
+import errno
 import hashlib
 import random
 
@@ -379,6 +380,62 @@ def run_C18(case):
             if {p: bytes(b) for p, b in expect.items()} != got:
                 raise RuntimeError("in-line crash at event %d (torn %r) left bytes that differ from the log-prefix reconstruction" % (k, j))
             res.stats["inline_crashes"] += 1
+        # disk full: from some append on, whatever makes a file grow fails with ENOSPC (rewrites still
+        # succeed); the error travels through the library like any exception (its handlers run), the
+        # process gives up, and the folder is reopened later: the same promise as after a death
+        for frac in case.get("disk_full", []) if not case.get("tasks") else []:
+            apps = [x + 1 for x in range(n) if log[x][2] == "append" and x >= spans[0][1]]
+            if not apps:
+                break
+            k = apps[min(len(apps) - 1, int(frac * len(apps)))]
+            default, rules = _rules(cfg)
+            model2 = Model(default, rules)
+            disk = SimDisk()
+            SEAM.install()
+            SEAM.use(disk)
+            sut = O.Sut("sim", default, rules, disk=disk)
+            disk.arm_full(k - len(disk.log))
+            failed_in = None
+            for oi, op in enumerate(case["ops"]):
+                refs = O.resolve_refs(op, model2)
+                if refs is None:
+                    continue
+                try:
+                    ob = O.exec_sut(sut, op, refs, model2)
+                except OSError as e:
+                    if e.errno != errno.ENOSPC:
+                        raise
+                    failed_in = oi
+                    break
+                O.exec_model(model2, op, refs, ob)
+            if failed_in is None:
+                continue  # (the request that would have appended was refused before writing)
+            try:
+                sut.close()
+            except Exception:
+                pass
+            files = {p: bytes(b) for p, b in disk.files.items()}
+            i = failed_in + 1
+            ref_pages, ref_links, rules_after, default_after = snaps[i]
+            rules_ = dict(snaps[i - 1][2])
+            rules_.update(rules_after)
+            where = "disk full from write event %d/%d on (during op #%d %s), process gives up, folder reopened" % (k, n, failed_in, case["ops"][failed_in]["op"])
+            res.stats["disk_full_states"] += 1
+            from traph.traph import TraphException
+
+            try:
+                t, d = reopen_on(files, default_after, rules_)
+            except TraphException:
+                partial = (len(files.get(TRIE, b"")) % 128 != 0) or (len(files.get(LINKS, b"")) % 16 != 0)
+                if not partial and (TRIE in files) == (LINKS in files):
+                    raise Fail("C18.refusal_justified", "%s: the folder was refused although both files exist and are whole numbers of blocks" % where)
+                continue
+            except Exception as e:
+                raise Fail("C18.open_failure", "%s: reopening failed with %s: %s" % (where, type(e).__name__, e))
+            try:
+                crash_sweep(t, ref_pages, ref_links, res, where)
+            finally:
+                t.close()
         res.extra["cuts_enumerated"] = len(cuts)
         res.extra["log_events"] = n
         if n >= 20 and res.stats["reopen_accepted"] >= 10:
@@ -414,5 +471,6 @@ def gen_C18(rng, tier, seed):
             rules.append([O.enc(a), rng.choice(["domain", "path1"])])
         c["ops"].insert(pos, {"op": "clear", "default": rng.choice([None, "domain", "path1"]), "rules": rules})
     c["inline"] = [[rng.random(), rng.random() < 0.5] for _ in range(rng.choice([0, 1, 2]))]
+    c["disk_full"] = [rng.random() for _ in range(rng.choice([0, 1, 2, 3]))]
     c["max_events"] = 400 if tier == "quick" else 1500
     return c
